@@ -791,7 +791,7 @@ pub fn gen_malformed(seed: u64, thorough: bool, o: &mut Out) -> Vec<String> {
 pub fn gen_crash_sweep(seed: u64, thorough: bool, o: &mut Out) -> Vec<String> {
     let mut rng = Rng::new(seed ^ 0x04);
     let mut q = vec![];
-    let nscn = if thorough { 40 } else { 6 };
+    let nscn = if thorough { 14 } else { 6 };
     let post = |q: &mut Vec<String>| {
         q.push("reboot".into());
         q.push("sweep".into());
@@ -817,13 +817,13 @@ pub fn gen_crash_sweep(seed: u64, thorough: bool, o: &mut Out) -> Vec<String> {
                 points.push((j, k, 4));
             }
         }
-        if !thorough && points.len() > 40 {
+        if points.len() > (if thorough { 160 } else { 40 }) {
             let mut keep: Vec<(usize, usize, usize)> = points.iter().cloned().filter(|(j, _, _)| *j != 0).collect();
             let mut st: Vec<(usize, usize, usize)> = points.iter().cloned().filter(|(j, _, _)| *j == 0).collect();
             rng.shuffle(&mut st);
-            st.truncate(8);
+            st.truncate(if thorough { 24 } else { 8 });
             rng.shuffle(&mut keep);
-            keep.truncate(30);
+            keep.truncate(if thorough { 130 } else { 30 });
             keep.extend(st);
             points = keep;
         }
@@ -833,7 +833,7 @@ pub fn gen_crash_sweep(seed: u64, thorough: bool, o: &mut Out) -> Vec<String> {
             for p in 0..4 {
                 tears.push(Some((p, 0xFF))); // p bytes programmed, nothing of byte p
                 tears.push(Some((p, rng.next() as u8)));
-                if thorough {
+                if thorough && p % 2 == 0 {
                     tears.push(Some((p, 1 << rng.below(8))));
                     tears.push(Some((p, !(1u8 << rng.below(8)))));
                 }
